@@ -16,6 +16,7 @@ DESC = {
  "M24": ("C14", "wait-for walk bounded by len-1 steps"), "M25": ("C14", "self-ask test removed"), "M26": ("C14", "on_run runs outside the task-local actor scope"),
  "M28": ("C15", "the drop guard does not remove its edge"), "M30a": ("C16", "erased tell_with_timeout ignores its timeout"), "M30b": ("C16", "ActorControl::stop forwards to kill"),
  "M30c": ("C16", "erased ask_with_timeout doubles its timeout"), "M31": ("C17", "deprecated tell_blocking passes its timeout on"),
+ "M40": ("C14", "ask(): cycle check under one hold of the wait-for graph lock, edge insertion under a second one (two OS threads can both pass the check)"),
  "M32": ("C18", "metrics build: the per-message ActorRef clone is leaked (mem::forget)"), "M33": ("C20", "message_count incremented by 2"),
 }
 matrix = {}
